@@ -21,7 +21,7 @@ pub fn info() -> PropInfo {
         id: "C14",
         run,
         replay,
-        rule: "cases = (family type, UTF-8 document, cut set). Documents: valid ones (serialized generated values), token-level mutations of them and token soup (C07's generators). Chunkings: piece sizes 1, 2, 3, 7, whole, and random cut sets through the harness-owned BufRead. Oracle: from_str and from_reader either both fail or both succeed with equal values (error values are not compared). Non-trivial = the document contains mixed text/CDATA, a comment/PI/DOCTYPE, a reference or an element the type skips (i.e. the deserializer has to merge text, skip subtrees or unescape), or the result is Err after at least three tokens.",
+        rule: "cases = (family type, UTF-8 document, cut set). Documents: valid ones (serialized generated values), token-level mutations of them and token soup (C07's generators), and valid documents after C15's information-preserving rewrites (text split by CDATA/comments/PIs, references, re-quoted attributes, unknown content). Chunkings: piece sizes 1, 2, 3, 7, whole, and random cut sets through the harness-owned BufRead. Oracle: from_str and from_reader either both fail or both succeed with equal values (error values are not compared). Non-trivial = the document contains mixed text/CDATA, a comment/PI/DOCTYPE, a reference or an element the type skips (i.e. the deserializer has to merge text, skip subtrees or unescape), or the result is Err after at least three tokens.",
         assumptions: &["the document does not declare a non-UTF-8 encoding", "when the document starts with a byte-order mark the first piece has at least 4 bytes (the sniff looks only at the first piece, cf. C02)"],
         level: "exploration",
         variants: &["full", "min"],
@@ -80,6 +80,23 @@ fn run(ctx: &Ctx) {
         }))
     };
     ctx.run_proptest_with("valid-and-mutated-documents", ctx.tier.pick(1_000_000, 10_000_000), valid_and_mutated, check);
+    // valid documents after information-preserving rewrites (C15's rewriter): text split by CDATA
+    // sections, comments and PIs, references, attribute re-quoting, unknown content — the shapes
+    // in which the two event readers have the most work to do
+    let rewritten = || {
+        Box::new((any_val(), 0u8..3, any::<bool>(), prop::collection::vec(super::c15::rw_strategy(), 1..6), cuts_strategy()).prop_map(|(val, level, expand_empty, rws, (sel, rnd))| {
+            let opts = SerOpts { level, indent: None, expand_empty, root: None };
+            let mut doc = val.serialize_with(&opts).unwrap_or_else(|_| "<r/>".to_string());
+            for rw in &rws {
+                if let Some(d) = super::c15::apply(val.ty(), &doc, rw) {
+                    doc = d;
+                }
+            }
+            let cuts = make_cuts(doc.len(), sel, &rnd);
+            Case { ty: val.ty(), input: doc, cuts }
+        }))
+    };
+    ctx.run_proptest_with("rewritten-valid-documents", ctx.tier.pick(800_000, 8_000_000), rewritten, check);
     let soup = || {
         Box::new((prop::collection::vec(any::<u16>(), 0..14), prop::sample::select(ALL_TYPES.to_vec()), cuts_strategy()).prop_map(|(ws, ty, (sel, rnd))| {
             let input = ws.iter().map(|w| VOCAB[scale(*w, VOCAB.len())]).collect::<Vec<_>>().concat();
